@@ -114,11 +114,26 @@ class C08(Check):
             ri, di = loc
             for pos in range(1, len(ws["roots"][ri]["defs"][di]["secs"][0]["items"]) + 1):
                 prints.append([ri, di, 0, pos, "offset", rng.randrange(1 << 20)])
+        # a definition that has an *approximately equal* revision: same name, version, kind, min, max and residues mod 32 of the
+        # length set, but different members ({16, 24, ..} with and without a gap); its _bit_length_ is printed in both passes
+        apx = None
+        root = ws["roots"][0]
+        if rng.random() < 0.35 and (root["name"] + ".Apx").lower() not in {d["name"].lower() for d in root["defs"]}:
+            a, m = rng.choice([(3, 5), (3, 6), (4, 6), (4, 7), (5, 7), (5, 8)])
+            body_a = [["f", ["u", 8, "s"], "h"], ["f", ["var", ["u", 8, "s"], a + m], "p"]]
+            body_b = [["f", ["var", ["u", 8, "s"], a], "p"], ["f", ["var", ["u", 8 * m, "s"], 1], "e"]]
+            first, second = (body_a, body_b) if rng.random() < 0.5 else (body_b, body_a)
+            hosts = [(ri0, di0) for ri0, di0 in keys if not ws["roots"][ri0]["defs"][di0].get("dep") or True]
+            root["defs"].append({"name": root["name"] + ".Apx", "ver": [1, 0], "port": None, "ext": "dsdl", "dep": False,
+                                 "secs": [{"union": False, "hdr": None, "items": first, "seal": "sealed"}]})
+            apx = {"key": root["name"] + ".Apx.1.0", "alt_items": second}
+            ri0, di0 = rng.choice(hosts)
+            prints.append([ri0, di0, 0, 0, "bl", 0, apx["key"]])
         # base offset sets; one pair is *approximately equal* (same min, max and residues mod 32, different members)
         bases = [sorted({rng.choice([0, 1, 3, 8, 13, 16, 32, 64, 71]) for _ in range(rng.randint(1, 3))}) for _ in range(2)]
         lo = rng.choice([0, 8, 3])
         bases += [[lo, lo + 64], [lo, lo + 32, lo + 64]] if rng.random() < 0.5 else [[lo, lo + 32, lo + 64], [lo, lo + 64]]
-        return {"ws": ws, "prints": prints, "value_seed": rng.randrange(1 << 30), "bases": bases}
+        return {"ws": ws, "prints": prints, "value_seed": rng.randrange(1 << 30), "bases": bases, "apx": apx}
 
     def execute(self, scn: dict) -> Outcome:
         from .c06 import permuted_revision
@@ -133,7 +148,14 @@ class C08(Check):
                 ws2 = None
             if ws2 is not None:
                 out.stats["second_revision_in_same_process"] += 1
-                self._once(dict(scn, ws=ws2, prints=[]), out)
+                keep = [p0 for p0 in scn.get("prints", []) if len(p0) > 6]
+                if scn.get("apx"):
+                    import copy
+                    for r0 in ws2["roots"]:
+                        for d0 in r0["defs"]:
+                            if T.def_key(d0) == scn["apx"]["key"]:
+                                d0["secs"][0]["items"] = copy.deepcopy(scn["apx"]["alt_items"])
+                self._once(dict(scn, ws=ws2, prints=keep), out)
         return out
 
     def _once(self, scn: dict, out: Outcome) -> Outcome:
@@ -146,7 +168,9 @@ class C08(Check):
         inserted: list[tuple] = []
         extra_refs: dict[str, set] = {}
         msgs = [k for k in uni0.defs if not T.is_service(uni0.defs[k])]
-        for n, (ri, di, si, idx, what, salt) in enumerate(scn.get("prints", [])):
+        for n, entry in enumerate(scn.get("prints", [])):
+            ri, di, si, idx, what, salt = entry[:6]
+            explicit = entry[6] if len(entry) > 6 else None
             try:
                 d = ws["roots"][ri]["defs"][di]
                 s = d["secs"][si]
@@ -166,7 +190,7 @@ class C08(Check):
                 expect_prints.append((T.def_key(d), 1000000 + n, "set", set(node.expand())))
                 inserted.append((ri, di, si, idx))
             elif msgs:
-                k = msgs[salt % len(msgs)]
+                k = explicit if (explicit in uni0.defs and not T.is_service(uni0.defs[explicit])) else msgs[salt % len(msgs)]
                 td = uni0.defs[k]
                 def reaches(a: str, b: str) -> bool:
                     seen, todo = set(), [a]
